@@ -4,6 +4,7 @@ import P2PVerif.Driver.Cache
 import P2PVerif.Driver.DHT
 import P2PVerif.Driver.Key
 import P2PVerif.Driver.Addr
+import P2PVerif.Driver.Frag
 open P2PVerif.Driver
 
 def streams : List (String × Stream) := [
@@ -11,7 +12,8 @@ def streams : List (String × Stream) := [
   ("cache", cacheStream),
   ("dht", dhtStream),
   ("key", keyStream),
-  ("addr", addrStream)
+  ("addr", addrStream),
+  ("frag", fragStream)
 ]
 
 def main (args : List String) : IO UInt32 := do
